@@ -7,7 +7,9 @@ package main
 //   1. boolean flags: a local that is defined once from a pure boolean expression
 //      (`private := len(I) == 1 && I[0] == '?'`, `sgr := …`) and only read afterwards is substituted into its
 //      uses when no operand of the expression can change between the definition and the use (the propagation of
-//      c15norm.go, restricted to boolean definitions that are real conditions);
+//      c15norm.go, restricted to boolean definitions that are real conditions); likewise a local that only names a
+//      channel field (`ch := vx.chCursorPos`), which is what inlining a send helper leaves behind;
+//   0. (before everything else) new generic helpers are instantiated per call and inlined (c03mono.go);
 //   2. constant tables: `for i, row := range table { B }` over an unexported package-level array/slice that is
 //      initialised by a literal with at most c03MaxRows rows and is never written, sliced, aliased or passed on
 //      anywhere in the package is unrolled into one block per row, `row.field` / `row` / `i` replaced by the
@@ -36,6 +38,7 @@ func c03Normalise(c *Ctx) {
 		return
 	}
 	shorts := []string{"ansi", "vaxis"}
+	c03Monomorphise(c, shorts) // generic helpers: instantiated per call, then inlined (c03mono.go)
 	any := false
 	for round := 0; round < 8; round++ {
 		changed := map[*packages.Package]map[*ast.File]bool{}
@@ -54,9 +57,12 @@ func c03Normalise(c *Ctx) {
 					did := false
 					if c03HasFlagDef(pk.TypesInfo, fd) {
 						old := c15PropagateOnly
-						c15PropagateOnly = c03IsFlagDef
+						c15PropagateOnly = c03IsPropDef
 						did = c15PropagateIn(c, pk, pk.TypesInfo, f, fd)
 						c15PropagateOnly = old
+					}
+					if !did {
+						did = c03StripChanConv(pk, fd)
 					}
 					if !did {
 						did = c03UnrollTables(pk, f, fd, tables)
@@ -85,6 +91,12 @@ func c03Normalise(c *Ctx) {
 	if any {
 		installAccessorResolver(c.P)
 	}
+}
+
+// c03IsPropDef: the single-definition locals that are substituted into their uses: boolean conditions and aliases
+// of a channel field (c03mono.go).
+func c03IsPropDef(info *types.Info, o types.Object, def ast.Expr) bool {
+	return c03IsFlagDef(info, o, def) || c03IsChanAlias(info, o, def)
 }
 
 // c03IsFlagDef: the definition is a boolean condition (comparison, &&, ||, !), not a plain copy of another variable.
@@ -120,14 +132,14 @@ func c03HasFlagDef(info *types.Info, fd *ast.FuncDecl) bool {
 		case *ast.AssignStmt:
 			if t.Tok == token.DEFINE && len(t.Lhs) == 1 && len(t.Rhs) == 1 {
 				if id, ok := t.Lhs[0].(*ast.Ident); ok {
-					if o := info.Defs[id]; o != nil && c03IsFlagDef(info, o, t.Rhs[0]) {
+					if o := info.Defs[id]; o != nil && c03IsPropDef(info, o, t.Rhs[0]) {
 						found = true
 					}
 				}
 			}
 		case *ast.ValueSpec:
 			if len(t.Names) == 1 && len(t.Values) == 1 {
-				if o := info.Defs[t.Names[0]]; o != nil && c03IsFlagDef(info, o, t.Values[0]) {
+				if o := info.Defs[t.Names[0]]; o != nil && c03IsPropDef(info, o, t.Values[0]) {
 					found = true
 				}
 			}
